@@ -252,9 +252,77 @@ def check(ctx):
             if err is not None or got != as_parsed(st_):
                 bad = (st_, wire, got if err is None else err)
                 break
+        # position x content grid.  What can precede a run of text inside one list level is complete as {nothing, atom, quoted string, nested list, literal}
+        # (the item kinds of the writer); the text itself carries the bytes the quoting rules name as legal data: quotes, unbalanced list delimiters, blanks
+        before = {"first": [], "after an atom": [12], "after a quoted string": [b"a b"], "after a nested list": [[b"x"]], "after a literal": [b"l\nm"]}
+        texts = [b'say "hi"', b'q"', b'"', b"thanks :-)", b"(", b"[[", b"])", b"a b", b"(\n", b"x\r\n]", b'"\n']
+        bad_pos = None
+        n_pos = 0
+        for pos, pre in before.items():
+            for t in texts:
+                for st_ in (pre + [t], pre + [t, b"z"], [pre + [t]], [b"k", pre + [t], None]):
+                    wire = b" ".join(ref_item(x, delim) for x in st_)
+                    got, err = _call(parse, wire)
+                    n_pos += 1
+                    if (err is not None or got != as_parsed(st_)) and bad_pos is None:
+                        bad_pos = (pos, t, st_, wire, got if err is None else err)
+        ctx.check(bad_pos is None, "roundtrip/text-at-every-position", q + " | <quotes and list delimiters as data, at every position of a list>",
+                  bad_pos and f"{bad_pos[2]!r} (the string {bad_pos[1]!r} {bad_pos[0]}) is serialised as {bad_pos[3]!r} and parsed back as {bad_pos[4]!r}: quotes and list "
+                  "delimiters inside a quoted string or a literal are data, wherever the string stands",
+                  detail=f"{n_pos} structures: {len(before)} position classes x {len(texts)} texts x 4 surroundings")
         ctx.check(bad is None, "roundtrip/writer-output-parses-back", q + " | <structures without backslash>",
                   bad and f"{bad[0]!r} is serialised as {bad[1]!r} and parsed back as {bad[2]!r} (a literal is '{{N}}' CR LF followed by exactly N bytes, whatever they are)",
                   detail=f"{len(structures)} structures")
+
+    # ---- reader: scanning discipline (structural) ------------------------------------------------------------------------
+    with structural(ctx, "reader-table/index-base-agrees, reader-table/no-raw-delimiter-scan", "roundtrip/text-at-every-position (bounded)"):
+        LIST_DELIMS = (b"(", b")", b"[", b"]")
+        for fname in ("splitQuoted", "parseNestedParens"):
+            fr_ = ctx.func(IMAP, fname)
+            q = "twisted.mail.imap4." + fname
+            params = {a.arg for a in fr_.args.args}
+            # (1) an index counted along a derived sequence (stripped / sliced text) must not subscript the text it was derived from
+            n_loops = 0
+            for lp_ in ast.walk(fr_):
+                if not (isinstance(lp_, ast.For) and isinstance(lp_.iter, ast.Call) and call_name(lp_.iter) == "enumerate" and lp_.iter.args
+                        and isinstance(lp_.target, ast.Tuple) and isinstance(lp_.target.elts[0], ast.Name)):
+                    continue
+                n_loops += 1
+                idx = lp_.target.elts[0].id
+                seq = lp_.iter.args[0]
+                derived_from = {x.func.value.id for x in ast.walk(seq) if isinstance(x, ast.Call) and isinstance(x.func, ast.Attribute) and isinstance(x.func.value, ast.Name)
+                                and x.func.attr in ("strip", "lstrip", "rstrip", "replace", "expandtabs", "lower", "upper")}
+                derived_from |= {x.value.id for x in ast.walk(seq) if isinstance(x, ast.Subscript) and isinstance(x.value, ast.Name) and isinstance(x.slice, ast.Slice)}
+                uses = [x for b_ in lp_.body for x in ast.walk(b_) if isinstance(x, ast.Subscript) and isinstance(x.value, ast.Name)
+                        and any(isinstance(n_, ast.Name) and n_.id == idx for n_ in ast.walk(x.slice))]
+                for x in uses:
+                    ctx.check(x.value.id not in derived_from, "reader-table/index-base-agrees", ctx.construct(q, x),
+                              f"{idx} counts positions in {src(seq)}, but {src(x)} applies it to {x.value.id} itself, whose positions are shifted (by the removed leading part): "
+                              "the look-behind reads the wrong unit whenever the text does not start at offset 0")
+                if not uses:
+                    ctx.ok("reader-table/index-base-agrees", ctx.construct(q, lp_.iter))
+            # (2) no quoting-unaware scan of the whole input for list delimiters
+            scans = []
+            for x in ast.walk(fr_):
+                if (isinstance(x, ast.Call) and isinstance(x.func, ast.Attribute) and isinstance(x.func.value, ast.Name) and x.func.value.id in params
+                        and x.func.attr in ("count", "find", "rfind", "index", "rindex", "partition", "rpartition", "split", "rsplit") and x.args
+                        and isinstance(x.args[0], ast.Constant) and isinstance(x.args[0].value, (bytes, str)) and len(x.args) == 1):
+                    v = x.args[0].value
+                    v = v.encode("latin-1") if isinstance(v, str) else v
+                    if any(d in v for d in LIST_DELIMS):
+                        scans.append(x)
+                if (isinstance(x, ast.Compare) and len(x.ops) == 1 and isinstance(x.ops[0], (ast.In, ast.NotIn)) and isinstance(x.comparators[0], ast.Name)
+                        and x.comparators[0].id in params and isinstance(x.left, ast.Constant) and isinstance(x.left.value, (bytes, str))):
+                    v = x.left.value
+                    v = v.encode("latin-1") if isinstance(v, str) else v
+                    if any(d in v for d in LIST_DELIMS):
+                        scans.append(x)
+            for x in scans:
+                ctx.check(False, "reader-table/no-raw-delimiter-scan", ctx.construct(q, x),
+                          f"{src(x)} looks for a list delimiter in the whole raw input, without knowing about quoting: a parenthesis or bracket inside a quoted string or a "
+                          "literal is data, but is counted as structure here")
+            if not scans:
+                ctx.ok("reader-table/no-raw-delimiter-scan", q)
 
     # ---- reader: collapseStrings routes literals around the tokenizer ---------------------------------------------------
     with structural(ctx, "reader-table/literal-route", "reader/literal-bypasses-tokenizer (bounded)"):
